@@ -2,7 +2,7 @@ use ascii::AsciiString;
 
 use std::io::Error as IoError;
 use std::io::Result as IoResult;
-use std::io::{BufReader, BufWriter, ErrorKind, Read, Write};
+use std::io::{BufReader, BufWriter, ErrorKind, Read};
 
 use std::net::SocketAddr;
 use std::str::FromStr;
@@ -244,17 +244,14 @@ impl Iterator for ClientConnection {
 
             // checking HTTP version
             if *rq.http_version() > (1, 1) {
-                // the answer has to go out through the rejected request's own writer: a later
-                // writer only gets its turn once this one is finished, which would never happen
-                let mut writer = rq.into_writer();
+                // the answer has to go out through the rejected request's own writer (a later
+                // writer only gets its turn once this one is finished), and before the request
+                // is discarded: discarding waits for the rest of its body
                 let response = Response::from_string(
                     "This server only supports HTTP versions 1.0 and 1.1".to_owned(),
                 )
                 .with_status_code(StatusCode(505));
-                response
-                    .raw_print(writer.by_ref(), HTTPVersion(1, 1), &[], false, None)
-                    .ok();
-                writer.flush().ok();
+                rq.respond_as_http11(response);
                 continue;
             }
 
